@@ -12,6 +12,9 @@ use anyhow::{anyhow, Context, Result};
 use flate2::read::MultiGzDecoder;
 use ragc_common::Contig;
 use std::collections::HashMap;
+#[cfg(ragc_verif)]
+use ragc_common::verif::File;
+#[cfg(not(ragc_verif))]
 use std::fs::File;
 use std::io::{BufReader, Read};
 use std::path::{Path, PathBuf};
